@@ -1,6 +1,7 @@
 package sim
 
 import (
+	"encoding/json"
 	"fmt"
 	"sort"
 	"strings"
@@ -27,6 +28,7 @@ type Baseline struct {
 	WorkloadLabels map[string]string
 	WorkloadAnnos  map[string]string
 	VirtualService map[string]interface{} // spec of the user's VirtualService (custom provider)
+	WorkloadSpec   string                 // the user's workload spec without template and replicas (see workloadSpecProjection)
 }
 
 func CaptureBaseline(w *World, sc *Scenario) *Baseline {
@@ -49,6 +51,7 @@ func CaptureBaseline(w *World, sc *Scenario) *Baseline {
 	if vs := GetVirtualService(w, sc.ns()); vs != nil {
 		b.VirtualService, _, _ = unstructured.NestedMap(vs.Object, "spec")
 	}
+	b.WorkloadSpec = workloadSpecProjection(getWorkload(w, sc))
 	return b
 }
 
@@ -132,12 +135,69 @@ func Residue(w *World, sc *Scenario, base *Baseline) []string {
 				out = append(out, fmt.Sprintf("workload partition is still %d", stsPartition(st)))
 			}
 		}
+		if base != nil && base.WorkloadSpec != "" {
+			if now := workloadSpecProjection(getWorkload(w, sc)); now != base.WorkloadSpec {
+				out = append(out, "workload spec (pause / partition / strategy / minReadySeconds / progressDeadline ...) differs from the user's: "+strings.Join(lib.JSONDiffValues(json.RawMessage(base.WorkloadSpec), json.RawMessage(now)), " "))
+			}
+		}
 		if v.Updated != v.Pods || v.Ready != v.Pods || v.Pods != v.Replicas {
 			out = append(out, fmt.Sprintf("workload did not converge to the desired revision: %d/%d pods updated, %d ready", v.Updated, v.Replicas, v.Ready))
 		}
 	}
 	sort.Strings(out)
 	return out
+}
+
+// workloadSpecProjection is the workload's spec as JSON without the pod template and the replica count (the user may
+// change both during a release); a partition that means "every pod may be updated" (0, "0%") and paused=false are
+// the same as their absence.
+func workloadSpecProjection(obj interface{}) string {
+	if obj == nil {
+		return ""
+	}
+	b, _ := json.Marshal(obj)
+	var m map[string]interface{}
+	if json.Unmarshal(b, &m) != nil {
+		return ""
+	}
+	spec, _ := m["spec"].(map[string]interface{})
+	if spec == nil {
+		return ""
+	}
+	delete(spec, "template")
+	delete(spec, "replicas")
+	if p, ok := spec["paused"].(bool); ok && !p {
+		delete(spec, "paused")
+	}
+	zero := func(v interface{}) bool {
+		switch x := v.(type) {
+		case float64:
+			return x == 0
+		case string:
+			return x == "0%" || x == "0"
+		case nil:
+			return true
+		}
+		return false
+	}
+	if us, ok := spec["updateStrategy"].(map[string]interface{}); ok {
+		if zero(us["partition"]) {
+			delete(us, "partition")
+		}
+		if p, ok := us["paused"].(bool); ok && !p {
+			delete(us, "paused")
+		}
+		if ru, ok := us["rollingUpdate"].(map[string]interface{}); ok {
+			if zero(ru["partition"]) {
+				delete(ru, "partition")
+			}
+			if len(ru) == 0 {
+				delete(us, "rollingUpdate")
+			}
+		}
+	}
+	out, _ := json.Marshal(spec)
+	return string(out)
 }
 
 // virtualServiceResidue: the custom (Lua) provider must have restored the user's VirtualService and removed the
@@ -214,8 +274,25 @@ func (m *ExitMonitor) OnState(x *Ctx, quiescent bool) {
 
 func residueClass(res []string) string {
 	first := res[0]
-	for _, w := range []string{"BatchRelease", "canary Service", "canary Ingress", "canary Deployment", "stable Service selector", "stable Ingress", "VirtualService", "HPA", "annotation", "paused", "partition", "converge"} {
+	for _, w := range []string{"BatchRelease", "canary Service", "canary Ingress", "canary Deployment", "stable Service selector", "stable Ingress", "VirtualService", "HPA", "workload spec", "annotation", "paused", "partition", "converge"} {
 		if strings.Contains(first, w) {
+			if w == "workload spec" {
+				// which fields differ is part of the class: ".strategy.type: "Recreate" -> "RollingUpdate"" and a lost
+				// minReadySeconds are different defects
+				if i := strings.Index(first, "differs from the user's: "); i >= 0 {
+					var paths []string
+					for _, f := range strings.Split(first[i+len("differs from the user's: "):], " .") {
+						f = strings.TrimPrefix(f, ".")
+						if j := strings.Index(f, ":"); j > 0 {
+							paths = append(paths, f[:j])
+						}
+					}
+					if strings.Contains(first, `.strategy.type: "Recreate" -> "RollingUpdate"`) {
+						return "workload-spec/strategy-Recreate-became-RollingUpdate"
+					}
+					return "workload-spec/" + strings.Join(paths, "+")
+				}
+			}
 			return strings.ReplaceAll(w, " ", "-")
 		}
 	}
